@@ -25,7 +25,8 @@ pub enum FOp {
 
 #[derive(Clone, Debug, Serialize, Deserialize)]
 pub struct FHist {
-    /// 0 = ASCII names, 1 = non-ASCII without case mappings, 2 = non-ASCII with case mappings
+    /// 0 = ASCII names, 1 = non-ASCII without case mappings, 2 = non-ASCII with case mappings, 3 = non-ASCII with
+    /// case mappings but every call names its entry exactly and no two names of the history are case variants
     pub class: u8,
     pub kind: u8,
     pub ops: Vec<FOp>,
@@ -151,7 +152,8 @@ pub fn eval_batch(hs: &[FHist]) -> Result<Vec<CaseOut>, String> {
         } else if a[i] != b[i] {
             out.violation = Some(format!("alloc vs fixed-buffer build differ: {}", first_diff(&a[i], &b[i])));
         } else if h.class != 2 && a[i] != c[i] {
-            out.violation = Some(format!("unicode vs no-unicode build differ on names without non-ASCII case mappings: {}", first_diff(&a[i], &c[i])));
+            let which = if h.class == 3 { "a history that names every entry exactly (no case variants among its names)" } else { "names without non-ASCII case mappings" };
+            out.violation = Some(format!("unicode vs no-unicode build differ on {}: {}", which, first_diff(&a[i], &c[i])));
         }
         outs.push(out);
     }
@@ -163,7 +165,9 @@ fn name_strategy(class: u8) -> BoxedStrategy<String> {
         // incl. the punctuation pairs that differ only in bit 5 like upper / lower case letters do: @ `  [ {  ] }  ^ ~
         0 => "[a-zA-Z0-9 ._+@`\\[\\]{}^~-]",
         1 => "[一-鿿ぁ-ん丁-乚0-9a-z ._]",
-        _ => "[a-zA-Zà-öø-ÿßΑ-Ωα-ω ._]",
+        2 => "[a-zA-Zà-öø-ÿßΑ-Ωα-ω ._]",
+        // characters whose upper-case form is ASCII, several characters, or outside the BMP block of the lower-case one
+        _ => "[a-zà-öø-ÿßα-ωﬀ-ﬆıſŉǰΐ ._]",
     };
     let lens = prop_oneof![
         4 => 1usize..=12,
@@ -211,15 +215,25 @@ fn hist_strategy() -> impl Strategy<Value = FHist> {
         3 => c17::soup_strategy().prop_map(|c| c.slots),
         2 => (1usize..=3, any::<u64>()).prop_map(|(n, idx)| c17::pattern_case(n, idx % (58u64.pow(n as u32) * 12), false).slots),
     ];
-    (0u8..3, prop::collection::vec(any::<(u8, u8, u8)>(), 3..30), prop::option::weighted(0.3, region))
+    (0u8..4, prop::collection::vec(any::<(u8, u8, u8)>(), 3..30), prop::option::weighted(0.3, region))
         .prop_flat_map(|(class, raw, soup)| (Just(class), Just(raw), Just(soup), prop::collection::vec(name_strategy(class), 5..=5)))
+        .prop_map(|(class, raw, soup, mut names)| {
+            if class == 3 {
+                // a distinct leading digit: no two names of the history fold to the same string under any folding
+                for (i, n) in names.iter_mut().enumerate() {
+                    *n = format!("{}{}", i, n);
+                }
+            }
+            (class, raw, soup, names)
+        })
         .prop_map(|(class, raw, soup, names)| {
             let mut ops = Vec::new();
             for (k, a, b) in raw {
                 let n1 = names[a as usize % names.len()].clone();
                 let n2 = names[b as usize % names.len()].clone();
                 let variant = |s: &str, sel: u8| -> String {
-                    match sel % 6 {
+                    // class 3: exact names only - what the builds without Unicode folding must do identically
+                    match if class == 3 { 0 } else { sel % 6 } {
                         0 => s.to_string(),
                         1 => s.to_uppercase(),
                         2 => s.to_lowercase(),
@@ -310,7 +324,7 @@ pub fn replay(v: &serde_json::Value) -> Result<Option<String>, String> {
 }
 
 pub fn run(tier: Tier, seed: u64) -> i32 {
-    let rule = "histories of create_file/create_dir/open/remove/rename/list with names of 1..258 characters (dense around 13k and 244..258) from three alphabets (ASCII; non-ASCII without case mappings; non-ASCII with case mappings), lookups by upper/lower-cased variants, plus raw root-directory regions (valid long-name runs with one damaged byte, 19-21 slot runs, garbage long-name slots) - executed by the same driver source compiled against fatfs with {std,alloc,lfn,unicode}, {std,lfn,unicode} and {std,alloc,lfn}; oracle = identical observation trace (results, UTF-16 long names, short-name bytes, sizes, attributes) and identical final image hash: alloc vs fixed buffer on all histories, unicode vs no-unicode on the first two alphabets; non-trivial = history with a name of >= 14 units or a raw directory region; distinct by hash of the history";
+    let rule = "histories of create_file/create_dir/open/remove/rename/list with names of 1..258 characters (dense around 13k and 244..258) from three alphabets (ASCII; non-ASCII without case mappings; non-ASCII with case mappings), lookups by upper/lower-cased variants, plus raw root-directory regions (valid long-name runs with one damaged byte, 19-21 slot runs, garbage long-name slots) - executed by the same driver source compiled against fatfs with {std,alloc,lfn,unicode}, {std,lfn,unicode} and {std,alloc,lfn}; oracle = identical observation trace (results, UTF-16 long names, short-name bytes, sizes, attributes) and identical final image hash: alloc vs fixed buffer on all histories, unicode vs no-unicode on the first two alphabets and on a fourth class: names with case mappings (incl. characters whose upper case is ASCII or several characters: sharp s, ligatures, dotless i, long s) where every call names its entry exactly and no two names are case variants - there creation, aliases, listings and images may not depend on the folding; non-trivial = history with a name of >= 14 units or a raw directory region; distinct by hash of the history";
     let mut rep = Report::new("C19", tier, seed, "exploration", rule);
     rep.assume("the three feature sets listed; all with std (the harness device needs it)");
     for v in ["A", "B", "C"] {
